@@ -273,7 +273,11 @@ func FromInterface(v interface{}) (Object, error) {
 		}
 		return &Bytes{Value: v}, nil
 	case error:
-		return &Error{Value: &String{Value: v.Error()}}, nil
+		msg := v.Error()
+		if len(msg) > MaxStringLen {
+			return nil, ErrStringLimit
+		}
+		return &Error{Value: &String{Value: msg}}, nil
 	case map[string]Object:
 		return &Map{Value: v}, nil
 	case map[string]interface{}:
